@@ -103,7 +103,7 @@ class RegexExpr:
         if not value:
             return False
 
-        return self.re.match(value)
+        return self.regex.match(value) is not None
 
 
 class ConstantString:
@@ -179,9 +179,9 @@ var.setParseAction(VarExpr)
 regexExpr = var + tilde + quotedString
 regexExpr.setParseAction(RegexExpr)
 
-varQuotedString = quotedString
+varQuotedString = quotedString.copy()
 varQuotedString.setParseAction(ConstantString)
-eqExpr = var + eq + (var | quotedString)
+eqExpr = var + eq + (var | varQuotedString)
 eqExpr.setParseAction(EqExpr)
 
 stringList = quotedString + pp.ZeroOrMore(comma + quotedString)
